@@ -80,7 +80,7 @@ def h_int_range(E):
     lo, hi = smin(a, b), smax(a, b)
     E.check('integer-draw-in-range-any-order', sand(near_le(lo, x), near_le(x, hi), isinstance(x, (int, SymInt))))
     if E.mode == 'sym':
-        E.check('integer-endpoints-attainable', E.sat_witness('lo', x == lo) is True and E.sat_witness('hi', x == hi) is True)
+        E.check_attainable('integer-endpoints-attainable', x == lo, x == hi)
     else:
         # concrete confirmation of the existential obligation: run the real sampler under EVERY outcome the randint contract allows
         import mitxgraders.sampling as S
@@ -333,7 +333,7 @@ def h_complex_array(E, kind, opt):
                 E.check('symmetry', sand(near_eq(a, c), near_eq(b, d)))
         off = ent[(0, 1)]
         if E.mode == 'sym':
-            E.check('imaginary-part-attainable', isinstance(off, SymComplex) and E.sat_witness('imag', off.imag > 0.01) is True)
+            E.check_attainable('imaginary-part-attainable', isinstance(off, SymComplex) and (off.imag > 0.01))
         else:
             # concrete confirmation of the existential obligation: one draw of the real sampler with the real numpy generator
             kw = {} if cplx is None else dict(complex=cplx)
